@@ -253,16 +253,16 @@ func (x *session) onWrite(p []byte) error {
 		switch string(meth) {
 		case "none":
 			if len(rest) == 0 {
-				ev, kind = fmt.Sprintf("N(%s)", user), "N"
+				ev, kind = fmt.Sprintf("N(%s)", hx.Hex(user)), "N"
 			}
 		case "password":
 			if len(rest) >= 1 && rest[0] == 0 {
 				if pw, r, ok := rdStr(rest[1:]); ok && len(r) == 0 {
-					ev, kind = fmt.Sprintf("PW(%s,%s)", user, pw), "PW"
+					ev, kind = fmt.Sprintf("PW(%s,%s)", hx.Hex(user), pw), "PW"
 				}
 			}
 		case "keyboard-interactive":
-			ev, kind = fmt.Sprintf("KI(%s)", user), "KI"
+			ev, kind = fmt.Sprintf("KI(%s)", hx.Hex(user)), "KI"
 		case "publickey":
 			if len(rest) < 1 {
 				break
@@ -274,7 +274,7 @@ func (x *session) onWrite(p []byte) error {
 			}
 			if rest[0] == 0 {
 				if len(r2) == 0 {
-					ev, kind = fmt.Sprintf("Q(%s):%s:%s", user, dash(string(algo)), sauth.KeyIDOf(blob)), "Q"
+					ev, kind = fmt.Sprintf("Q(%s):%s:%s", hx.Hex(user), dash(string(algo)), sauth.KeyIDOf(blob)), "Q"
 					x.qAlgo, x.qBlob = string(algo), blob
 				}
 				break
@@ -297,7 +297,7 @@ func (x *session) onWrite(p []byte) error {
 					}
 				}
 			}
-			ev, kind = fmt.Sprintf("SG(%s):%s:%s:%s:%d", user, dash(string(algo)), sauth.KeyIDOf(blob), dash(string(sf)), valid), "SG"
+			ev, kind = fmt.Sprintf("SG(%s):%s:%s:%s:%d", hx.Hex(user), dash(string(algo)), sauth.KeyIDOf(blob), dash(string(sf)), valid), "SG"
 		}
 	}
 	x.writes = append(x.writes, ev)
@@ -383,7 +383,7 @@ func runScripted(user, auth, acb string, next func(x *session) (string, bool)) (
 	sauth.Init()
 	x = &session{}
 	ctx := &authCtx{}
-	cfg := &ssh.ClientConfig{User: user, Auth: ctx.mkAuth(auth)}
+	cfg := &ssh.ClientConfig{User: string(hx.UnHex(user)), Auth: ctx.mkAuth(auth)} // user: hex on the op line
 	if acb != "" {
 		var ds []string
 		if acb != "-" {
